@@ -16,10 +16,10 @@ inline constexpr int MAXD = 5;  // maximum dimensionality of any view/array hand
 // ---------------------------------------------------------------- view chains
 enum StepKind : int {
 	S_IDX = 0, S_SLICED, S_STRIDED, S_DROPPED, S_TAKED, S_ROTATED, S_UNROTATED, S_TRANSPOSED, S_REVERSED,
-	S_DIAGONAL, S_PARTITIONED, S_CHUNKED, S_FLATTED, S_CALL, S_PAREN, S_RANGE, S_COUNT
+	S_DIAGONAL, S_PARTITIONED, S_CHUNKED, S_FLATTED, S_CALL, S_PAREN, S_RANGE, S_HALVED, S_COUNT
 };
 inline char const* step_name(int k) {
-	static char const* n[] = {"ix", "sl", "st", "dr", "tk", "rot", "unrot", "tr", "rev", "diag", "part", "chunk", "flat", "call", "paren", "range"};
+	static char const* n[] = {"ix", "sl", "st", "dr", "tk", "rot", "unrot", "tr", "rev", "diag", "part", "chunk", "flat", "call", "paren", "range", "halved"};
 	return (k >= 0 && k < S_COUNT) ? n[k] : "?";
 }
 struct Step {
